@@ -22,6 +22,7 @@ var (
 	vbNewBroadcaster      = NewBroadcaster
 	vbParseBroadcastError = ParseBroadcastError
 	vbErrStopped          = ErrBroadcasterStopped
+	vbUseLogger           = UseLogger
 )
 
 // vbDrain releases a caller that is stuck in a plain send to the handler.
